@@ -259,6 +259,7 @@ static std::string dense_set(osmium::index::IdSetDense<T, B>& s, T id, int k) {
 }
 
 struct NwrDense64 {
+    static constexpr bool heavy = false;
     using Set = osmium::index::IdSetDense<uint64_t, 4>;
     using Id = uint64_t;
     static Id val(int64_t x) { return x < 2 ? static_cast<Id>(x) : (x == 9 ? 127ULL : 4294967296ULL + static_cast<Id>(x)); }   // chunk = 128 ids
@@ -266,6 +267,7 @@ struct NwrDense64 {
     static void unset(Set& s, Id id) { s.unset(id); }
 };
 struct NwrDenseDefault {       // the instantiation the library itself uses (default chunk size, 32 Mi ids per chunk)
+    static constexpr bool heavy = true;      // walking a 4 MiB chunk costs: every set is listed once per step only
     using Set = osmium::index::IdSetDense<osmium::unsigned_object_id_type>;
     using Id = osmium::unsigned_object_id_type;
     static Id val(int64_t x) { return x < 2 ? static_cast<Id>(x) : (x == 9 ? 33554431ULL : 33554432ULL + static_cast<Id>(x)); }
@@ -273,6 +275,7 @@ struct NwrDenseDefault {       // the instantiation the library itself uses (def
     static void unset(Set& s, Id id) { s.unset(id); }
 };
 struct NwrSmall {
+    static constexpr bool heavy = false;
     using Set = osmium::index::IdSetSmall<uint64_t>;
     using Id = uint64_t;
     static Id val(int64_t x) { return x < 2 ? static_cast<Id>(x) : (x == 9 ? 4294967295ULL : 4294967296ULL + static_cast<Id>(x)); }
@@ -334,26 +337,37 @@ static void run_xnwr(const json& c) {
             if (&arr(type_of(tn)) != &named(arr, tn) || &carr(type_of(tn)) != &named(carr, tn) || &carr(type_of(tn)) != &arr(type_of(tn))) {
                 throw vh::Mismatch(k, "one object per type", "accessors disagree", "operator()(type) against nodes()/ways()/relations()" + on);
             }
-            auto got = listing(carr(type_of(tn)));
-            if (want != got) throw vh::Mismatch(k, json(want), json(got), "content through operator()(" + tn + ") const" + on);
-            got = listing(named(carr, tn));
-            if (want != got) throw vh::Mismatch(k, json(want), json(got), "content through the named accessor" + on);
+            if (V::heavy) {
+                const auto got = (k + i) % 3 == 0 ? listing(carr(type_of(tn))) : (k + i) % 3 == 1 ? listing(named(carr, tn)) : listing(*(carr.begin() + i));
+                if (want != got) throw vh::Mismatch(k, json(want), json(got), "content" + on);
+            } else {
+                auto got = listing(carr(type_of(tn)));
+                if (want != got) throw vh::Mismatch(k, json(want), json(got), "content through operator()(" + tn + ") const" + on);
+                got = listing(named(carr, tn));
+                if (want != got) throw vh::Mismatch(k, json(want), json(got), "content through the named accessor" + on);
+            }
             VH_EXPECT(k, want.size(), static_cast<std::size_t>(carr(type_of(tn)).size()), "size()" + on);
             VH_EXPECT(k, want.empty(), named(carr, tn).empty(), "empty()" + on);
             for (const uint64_t v : want) {
                 if (!arr(type_of(tn)).get(static_cast<typename V::Id>(v))) throw vh::Mismatch(k, true, false, "get(" + std::to_string(v) + ")" + on);
             }
+            // begin()..end() (both flavours) and cbegin()..cend() walk the three sets in the order nodes, ways, relations
+            if (&*(arr.begin() + i) != &named(arr, tn) || &*(carr.begin() + i) != &named(carr, tn) || &*(arr.cbegin() + i) != &named(carr, tn)) {
+                throw vh::Mismatch(k, "slot " + std::to_string(i), "another object", "position of the " + tn + " set in begin()..end()");
+            }
         }
-        // begin()..end() (both flavours) and cbegin()..cend() walk the three sets in the order nodes, ways, relations
-        std::vector<std::vector<uint64_t>> order;
-        for (const auto& s : st["slots"]) order.push_back(wanted(s));
-        std::vector<std::vector<uint64_t>> g1, g2, g3;
-        for (auto it = arr.begin(); it != arr.end(); ++it) g1.push_back(listing(*it));
-        for (auto it = carr.begin(); it != carr.end(); ++it) g2.push_back(listing(*it));
-        for (auto it = arr.cbegin(); it != arr.cend(); ++it) g3.push_back(listing(*it));
-        if (order != g1) throw vh::Mismatch(k, json(order), json(g1), "begin()..end() after " + a);
-        if (order != g2) throw vh::Mismatch(k, json(order), json(g2), "begin()..end() const after " + a);
-        if (order != g3) throw vh::Mismatch(k, json(order), json(g3), "cbegin()..cend() after " + a);
+        if (arr.end() - arr.begin() != 3 || carr.end() - carr.begin() != 3 || arr.cend() - arr.cbegin() != 3) throw vh::Mismatch(k, 3, "not 3", "distance begin()..end()");
+        if (!V::heavy) {
+            std::vector<std::vector<uint64_t>> order;
+            for (const auto& s : st["slots"]) order.push_back(wanted(s));
+            std::vector<std::vector<uint64_t>> g1, g2, g3;
+            for (auto it = arr.begin(); it != arr.end(); ++it) g1.push_back(listing(*it));
+            for (auto it = carr.begin(); it != carr.end(); ++it) g2.push_back(listing(*it));
+            for (auto it = arr.cbegin(); it != arr.cend(); ++it) g3.push_back(listing(*it));
+            if (order != g1) throw vh::Mismatch(k, json(order), json(g1), "begin()..end() after " + a);
+            if (order != g2) throw vh::Mismatch(k, json(order), json(g2), "begin()..end() const after " + a);
+            if (order != g3) throw vh::Mismatch(k, json(order), json(g3), "cbegin()..cend() after " + a);
+        }
         ++k;
     }
 }
